@@ -14,6 +14,8 @@ Requests (one per line; `F` is a fault: `-` none, `f<k>` fail the k-th commit of
 * `store <num> <hash> <parent> <root> <oldroot> <bits> <txs> F`
 * `revert F` | `l1head <v> F` | `snap F` | `restart F` | `kill` | `prune <end> F`
 * `basecheck`  compares the closed-form base image with the fold of the model's own store writes
+* `touchp` | `initp` | `initpbits`   the same for a pruning node (`pruner.InitializeRunningEventFilter`)
+* `floor`      OldestRetainedBlock;  `ncommits prune <e>`  how many batches `prune e` would write
 * `touch`      any access to the running filter (initialises a lazy one)
 * `save` | `load`   remember / restore the node (to branch into a crash and come back)
 * `obsd`       like `obs` without the memory filter (printed as lazy)
@@ -206,6 +208,19 @@ def step (s : DState) (line : String) : DState × String :=
     | some e, some ft => doOp s (.prune e) ft
     | _, _ => (s, "bad-op")
   | ["touch"] => ({ s with node := ensureInit s.W s.node }, "ok")
+  | ["touchp"] => ({ s with node := ensureInitP s.W s.node }, "ok")
+  | ["initp"] =>
+    (s, match initFilterP s.W s.node.disk with | some (f, _) => s!"{f.win.lo}/{f.next}" | none => "err")
+  | ["initpbits"] =>
+    (s, match initFilterP s.W s.node.disk with | some (f, _) => cellsStr f.win.cells | none => "err")
+  | ["floor"] =>
+    (s, match getHeight s.node.disk with
+        | some h => optNat (oldestRetained s.node.disk (h + 1) 0)
+        | none => "-")
+  | ["ncommits", "prune", e] =>
+    match parseNat? e with
+    | some e => (s, toString (prunePlan s.W s.node e).commits.length)
+    | none => (s, "bad-op")
   | ["save"] => ({ s with saved := some s.node }, "ok")
   | ["load"] =>
     match s.saved with
